@@ -1279,6 +1279,21 @@ theorem core_isnot_null (l : Expr) (v : Str) (tl : SqlTree) (ls : List Piece) (h
   refine ⟨false, flag_bin _ _ _ _ (by decide) (by decide) (by decide), ?_⟩
   simpa [sqlPrec, cmpPieces, isNullLit, wrapOperand, S] using opd_isnot_null hal (Nat.le_refl 5)
 
+/-- `null eq x`: the visitor swaps the operands, the text is `x IS NULL` -/
+theorem core_is_null_swap (r : Expr) (v : Str) (tr : SqlTree) (rs : List Piece) (hr : CoreR r tr rs) :
+    CoreR (.compare .eq (.lit .null v) r) (.bin (S "IS") tr (.kw (S "NULL")))
+      (wrapOperand r 4 true rs ++ sp :: cmpPieces .eq (.lit .null v) ++ sp :: wrapOperand (.lit .null v) 4 true [w "NULL"]) := by
+  obtain ⟨ar, har⟩ := cmp_left hr
+  refine ⟨false, flag_bin _ _ _ _ (by decide) (by decide) (by decide), ?_⟩
+  simpa [sqlPrec, cmpPieces, isNullLit, wrapOperand, S] using opd_is_null har (Nat.le_refl 5)
+
+theorem core_isnot_null_swap (r : Expr) (v : Str) (tr : SqlTree) (rs : List Piece) (hr : CoreR r tr rs) :
+    CoreR (.compare .ne (.lit .null v) r) (.bin (S "ISNOT") tr (.kw (S "NULL")))
+      (wrapOperand r 4 true rs ++ sp :: cmpPieces .ne (.lit .null v) ++ sp :: wrapOperand (.lit .null v) 4 true [w "NULL"]) := by
+  obtain ⟨ar, har⟩ := cmp_left hr
+  refine ⟨false, flag_bin _ _ _ _ (by decide) (by decide) (by decide), ?_⟩
+  simpa [sqlPrec, cmpPieces, isNullLit, wrapOperand, S] using opd_isnot_null har (Nat.le_refl 5)
+
 /-! ### lists -/
 
 def CoreRL : Exprs → SqlTrees → List (List Piece) → Prop
@@ -2627,9 +2642,27 @@ theorem goal_compare (op : CmpOp) (hop : op ≠ .in_) (l r : Expr) (ihl : Goal i
     simp only [h1, h2, Option.bind_eq_bind, Option.bind_some] at hm
     obtain ⟨ls, hls, hv⟩ := outcome_bind_ok hv
     obtain ⟨rs, hrs, hv⟩ := outcome_bind_ok hv
+    by_cases hc : (isNullLit l && (op == CmpOp.eq || op == CmpOp.ne)) = true
+    · -- `null eq x` / `null ne x`: operands swapped
+      rw [if_pos hc] at hv
+      cases hv
+      simp only [Bool.and_eq_true, Bool.or_eq_true, beq_iff_eq] at hc
+      obtain ⟨v, rfl⟩ := isNullLit_inv hc.1
+      have cr := ihr tr rs hl.2 hs.2 h2 hrs
+      rw [mirror] at h1; rw [sqlVisit] at hls
+      simp [litMirror] at h1; simp [litPieces] at hls
+      subst h1 hls
+      rcases hc.2 with rfl | rfl
+      · cases hm
+        exact core_is_null_swap r _ tr rs cr
+      · cases hm
+        exact core_isnot_null_swap r _ tr rs cr
+    rw [if_neg hc] at hv
     cases hv
     have cl := ihl tl ls hl.1 hs.1 h1 hls
     split at hm
+    · exact absurd (by simp [isNullLit]) hc
+    · exact absurd (by simp [isNullLit]) hc
     · -- `= null`
       cases hm
       rw [mirror] at h2; rw [sqlVisit] at hrs
@@ -2641,14 +2674,14 @@ theorem goal_compare (op : CmpOp) (hop : op ≠ .in_) (l r : Expr) (ihl : Goal i
       simp [litMirror] at h2; simp [litPieces] at hrs
       subst h2 hrs
       exact core_isnot_null l _ tl ls cl
-    · rename_i x1 x2
+    · rename_i x1 x2 x3 x4
       cases hm
       refine core_compare op hop l r tl tr ls rs cl (ihr tr rs hl.2 hs.2 h2 hrs) ?_
       cases hn : isNullLit r with
       | false => exact Or.inl rfl
       | true =>
         obtain ⟨v, rfl⟩ := isNullLit_inv hn
-        exact Or.inr ⟨fun h => x1 v rfl h, fun h => x2 v rfl h⟩
+        exact Or.inr ⟨fun h => x3 v rfl h, fun h => x4 v rfl h⟩
 
 theorem goal_in_none (l r : Expr) (hr : ∀ xs, r ≠ .list xs) : Goal isD d al (.compare .in_ l r) := by
   intro t ps _ _ hm _
@@ -2671,6 +2704,7 @@ theorem goal_in (l : Expr) (xs : Exprs) (ihl : Goal isD d al l) (ihxs : GoalL is
     simp only [h1, h2, Option.bind_eq_bind, Option.bind_some, Option.pure_def, Option.some.injEq] at hm; subst hm
     obtain ⟨ls, hls, hv⟩ := outcome_bind_ok hv
     obtain ⟨rs, hrs, hv⟩ := outcome_bind_ok hv
+    rw [if_neg (by simp)] at hv
     cases hv
     rw [sqlVisit] at hrs
     obtain ⟨items, hitems, hrs⟩ := outcome_bind_ok hrs
